@@ -1,9 +1,10 @@
 package verifsim
 
 // safetyRun: the hostile-network family, one run in six with a directed restart prefix, one
-// in twenty-four with the directed early-commit prefix (anti-MEV).
+// in twenty-four with the directed early-commit prefix (anti-MEV), one in ~thirty with the
+// ledger-ahead prefix (block sync before Reset at a primary, dynamic block time).
 func safetyRun(arm func(*Sim)) func(*Tape, bool) *RunResult {
-	return mixRun(6, directedRestartRun(arm, 1), mixRun(20, directedEarlyCommitRun(arm), mixRun(20, directedPrimaryRestartRun(arm), simpleRun(SafetyScenario, arm))))
+	return mixRun(6, directedRestartRun(arm, 1), mixRun(20, directedEarlyCommitRun(arm), mixRun(20, directedPrimaryRestartRun(arm), mixRun(25, directedLedgerAheadRun(arm), simpleRun(SafetyScenario, arm)))))
 }
 
 func init() {
